@@ -63,7 +63,7 @@ def handle(job):
     p_t = rs.standard_normal(shape).astype(np.float32)
     if opt == "ds":
       o = {"mode": "rep", "block_size": b, "merge": False, "graft": graft, "beta1": 0.0, "beta2": 1.0,
-           "lr": 1.0, "Start": 0, "S": 1, "P": 1, "matrix_epsilon": 2.0 ** -10, "eigh": bool(seed % 2)}
+           "lr": 1.0, "Start": 0, "S": 1, "P": 1, "matrix_epsilon": 2.0 ** -10, "eigh": bool(job.get("eigh", False))}
       o_none = dict(o, graft="NONE")
     else:
       o = {"so": "shampoo", "block_size": b, "merge_dims": 3, "graft": graft, "graft_decay": 0.75 if graft == "RMSPROP" else 0.0,
@@ -82,8 +82,21 @@ def handle(job):
     if comp is not None:
       cp = rs.standard_normal(comp).astype(np.float32)
       r_cp = make_runner(opt, o_none, [shape, comp], seed, {"p0": jnp.asarray(p_t), "p1": jnp.asarray(cp)})
+    # ---- a SMALLER parameter alone vs next to the blocked target (its statistics get padded to the
+    #      target's size in Distributed Shampoo's stacked root computation) --------------------------------
+    small = (2, 2)
+    p_s = rs.standard_normal(small).astype(np.float32)
+    r_s1 = make_runner(opt, o_none, [small], seed, {"p0": jnp.asarray(p_s)})
+    r_s2 = make_runner(opt, o_none, [small, shape], seed, {"p0": jnp.asarray(p_s), "p1": jnp.asarray(p_t)})
     for t in range(T):
       g = grads_t[t]
+      gs = rs.standard_normal(small).astype(np.float32)
+      u_s1 = upd(opt, r_s1, r_s1.step({"p0": jnp.asarray(gs)}))["p0"]
+      u_s2 = upd(opt, r_s2, r_s2.step({"p0": jnp.asarray(gs), "p1": jnp.asarray(g)}))["p0"]
+      d = relb(u_s1, u_s2)
+      worst["companion"] = max(worst["companion"], d)
+      if not np.isfinite(d) or d > 1e-4:
+        mism.append({"clause": "small_parameter_depends_on_larger_companion", "step": t, "block": 0, "detail": d})
       u_bl = upd(opt, r_bl, r_bl.step({"p0": jnp.asarray(g)}))["p0"]
       u_lv = upd(opt, r_lv, r_lv.step({f"p{i}": jnp.asarray(g[bl]) for i, bl in enumerate(blocks)}))
       u_gr = upd(opt, r_gr, r_gr.step({"p0": jnp.asarray(g)}))["p0"]
